@@ -64,7 +64,15 @@ Definition mirror_y (op : xop) : bool :=
 Definition d4_of_op (op : xop) : d4 := d4_of (transposes op) (mirror_x op) (mirror_y op).
 
 (* destination block (x,y) of a component whose mirrorable area is cw x ch
-   blocks, cropped at block offset (X,Y) of the uncropped destination *)
+   blocks, cropped at block offset (X,Y) of the uncropped destination:
+   group element and source block position (column, row) *)
+Definition spec_pos (op : xop) (cw ch X Y : Z) (x y : Z) : d4 * Z * Z :=
+  let fx := mirror_x op && (X + x <? cw) in
+  let fy := mirror_y op && (Y + y <? ch) in
+  let dx := if fx then cw - 1 - (X + x) else X + x in
+  let dy := if fy then ch - 1 - (Y + y) else Y + y in
+  (d4_of (transposes op) fx fy, if transposes op then dy else dx, if transposes op then dx else dy).
+
 Definition spec_plane (op : xop) (cw ch X Y : Z) (src : srcfn) : srcfn := fun x y =>
   let fx := mirror_x op && (X + x <? cw) in
   let fy := mirror_y op && (Y + y <? ch) in
